@@ -1,0 +1,253 @@
+//! Verification hooks. Only compiled with `--cfg flurry_verif`; never part of a normal build.
+//!
+//! A process-global table of callbacks lets an external harness observe (and, by blocking inside a
+//! callback, serialise) every operation on shared memory, every lock acquisition, every
+//! park/unpark, every allocation, dereference and retirement performed by the map.  With no hooks
+//! installed every function here is a cheap no-op.
+#![allow(missing_docs, missing_debug_implementations, unreachable_pub)]
+
+use std::panic::Location;
+use std::sync::atomic::{AtomicPtr, Ordering};
+
+/// What kind of access is about to be made.
+#[derive(Clone, Copy, Debug, PartialEq, Eq, Hash)]
+pub enum Kind {
+    Load,
+    Store,
+    Swap,
+    Cas,
+    Rmw,
+    /// `Atomic::clone` (a relaxed pointer copy)
+    CloneLoad,
+}
+
+/// Which class of shared cell is accessed.
+#[derive(Clone, Copy, Debug, PartialEq, Eq, Hash)]
+pub enum Cell {
+    /// any `Atomic<T>` pointer cell (bins, next, value, tree links, table pointers, waiter)
+    Ptr,
+    SizeCtl,
+    TransferIndex,
+    Count,
+    LockState,
+}
+
+#[derive(Clone, Copy, Debug)]
+pub struct Op {
+    pub kind: Kind,
+    pub cell: Cell,
+    pub addr: usize,
+    pub ord: Ordering,
+    pub ord_fail: Option<Ordering>,
+    /// the load goes through `Guard::protect`
+    pub protected: bool,
+    pub loc: &'static Location<'static>,
+}
+
+#[derive(Clone, Copy, Debug, PartialEq, Eq)]
+pub enum Event {
+    /// bin `i` of a table of length `n` received its forwarding marker
+    BinMigrated { n: usize, i: usize },
+    /// a table of length `n` was installed as the current table by `transfer`
+    TablePublished { n: usize },
+    /// a thread entered `transfer` (`initiator` = it allocated the next table)
+    ResizeEnter { n: usize, initiator: bool },
+    /// a thread left `transfer`
+    ResizeLeave { n: usize, finisher: bool },
+    /// `check_guard` ran (and did not panic)
+    GuardChecked,
+    /// a remapping function / predicate supplied by the user is about to be called
+    Callback,
+}
+
+/// Callbacks. All have empty defaults.
+pub trait Hooks: Sync {
+    fn before_op(&self, _op: &Op) {}
+    /// `observed` is the value read (loads, swaps, CAS, RMW: the previous value),
+    /// `written` the value stored, if the operation stored one.
+    fn after_op(&self, _op: &Op, _observed: usize, _written: Option<usize>) {}
+    fn before_lock(&self, _lock: &parking_lot::Mutex<()>, _loc: &'static Location<'static>) {}
+    fn after_lock(&self, _lock: &parking_lot::Mutex<()>, _loc: &'static Location<'static>) {}
+    fn pre_park(&self, _loc: &'static Location<'static>) {}
+    fn on_unpark(&self, _target: std::thread::ThreadId) {}
+    fn spin(&self, _loc: &'static Location<'static>) {}
+    fn alloc(&self, _ptr: usize, _size: usize) {}
+    fn deref(&self, _ptr: usize, _loc: &'static Location<'static>) {}
+    fn into_box(&self, _ptr: usize, _loc: &'static Location<'static>) {}
+    fn retire(&self, _ptr: usize, _loc: &'static Location<'static>) {}
+    /// Called when the collector reclaims `ptr` (`size` bytes). Return `true` to take over the
+    /// memory (the destructor has then already run and the block is *not* returned to the
+    /// allocator; the harness owns it from now on).
+    fn reclaim(&self, _ptr: usize, _size: usize, _align: usize) -> bool {
+        false
+    }
+    fn event(&self, _ev: Event) {}
+}
+
+struct NoHooks;
+impl Hooks for NoHooks {}
+static NO_HOOKS: NoHooks = NoHooks;
+
+// a thin pointer to a leaked fat pointer, so that installation is one atomic store
+static HOOKS: AtomicPtr<&'static dyn Hooks> = AtomicPtr::new(std::ptr::null_mut());
+
+/// Install (or, with `None`, remove) the global hooks.
+pub fn set_hooks(h: Option<&'static dyn Hooks>) {
+    let p = match h {
+        Some(h) => Box::into_raw(Box::new(h)),
+        None => std::ptr::null_mut(),
+    };
+    // the previous box is leaked on purpose: another thread may still be using it
+    HOOKS.store(p, Ordering::SeqCst);
+}
+
+#[inline]
+pub fn hooks() -> &'static dyn Hooks {
+    let p = HOOKS.load(Ordering::SeqCst);
+    if p.is_null() {
+        &NO_HOOKS
+    } else {
+        // safety: boxes stored in HOOKS are never freed
+        unsafe { *p }
+    }
+}
+
+#[inline]
+#[track_caller]
+pub fn op(kind: Kind, cell: Cell, addr: usize, ord: Ordering, ord_fail: Option<Ordering>) -> Op {
+    let op = Op {
+        kind,
+        cell,
+        addr,
+        ord,
+        ord_fail,
+        protected: false,
+        loc: Location::caller(),
+    };
+    hooks().before_op(&op);
+    op
+}
+
+/// Yield point in front of an operation on one of the map's integer control words.
+#[inline]
+#[track_caller]
+pub fn word(kind: Kind, cell: Cell, addr: usize, ord: Ordering) {
+    let op = Op {
+        kind,
+        cell,
+        addr,
+        ord,
+        ord_fail: None,
+        protected: false,
+        loc: Location::caller(),
+    };
+    hooks().before_op(&op);
+}
+
+#[inline]
+#[track_caller]
+pub fn before_lock(lock: &parking_lot::Mutex<()>) {
+    hooks().before_lock(lock, Location::caller());
+}
+
+#[inline]
+#[track_caller]
+pub fn after_lock(lock: &parking_lot::Mutex<()>) {
+    hooks().after_lock(lock, Location::caller());
+}
+
+#[inline]
+#[track_caller]
+pub fn pre_park() {
+    hooks().pre_park(Location::caller());
+}
+
+#[inline]
+pub fn on_unpark(t: &std::thread::Thread) {
+    hooks().on_unpark(t.id());
+}
+
+#[inline]
+#[track_caller]
+pub fn spin() {
+    hooks().spin(Location::caller());
+}
+
+#[inline]
+pub fn event(ev: Event) {
+    hooks().event(ev);
+}
+
+/// Replacement for `seize::reclaim::boxed` that reports the reclamation first.
+pub unsafe fn reclaim_boxed<T: seize::AsLink>(link: *mut seize::Link) {
+    let ptr: *mut T = seize::Link::cast(link);
+    let size = std::mem::size_of::<T>();
+    let align = std::mem::align_of::<T>();
+    if hooks().reclaim(ptr as usize, size, align) {
+        // the harness keeps the block: run the destructor only
+        std::ptr::drop_in_place(ptr);
+    } else {
+        drop(Box::from_raw(ptr));
+    }
+}
+
+/* ------------------------------- inspector ------------------------------- */
+
+/// One list node (or the node part of a tree node).
+#[derive(Debug)]
+pub struct NodeDump<'g, K, V> {
+    pub addr: usize,
+    pub hash: u64,
+    pub key: &'g K,
+    pub value_addr: usize,
+    pub value: Option<&'g V>,
+    pub next: usize,
+    pub locked: bool,
+}
+
+#[derive(Debug)]
+pub struct TreeNodeDump<'g, K, V> {
+    pub node: NodeDump<'g, K, V>,
+    pub parent: usize,
+    pub left: usize,
+    pub right: usize,
+    pub prev: usize,
+    pub red: bool,
+}
+
+#[derive(Debug)]
+pub enum BinDump<'g, K, V> {
+    Empty,
+    Moved,
+    List(Vec<NodeDump<'g, K, V>>),
+    Tree {
+        addr: usize,
+        locked: bool,
+        lock_state: i64,
+        waiter_null: bool,
+        root: usize,
+        first: usize,
+        /// the nodes in `next` order, starting at `first`
+        list: Vec<TreeNodeDump<'g, K, V>>,
+        /// the nodes in pre-order, starting at `root`
+        tree: Vec<TreeNodeDump<'g, K, V>>,
+    },
+}
+
+#[derive(Debug)]
+pub struct TableDump<'g, K, V> {
+    pub addr: usize,
+    pub bins: Vec<BinDump<'g, K, V>>,
+    /// the table's own forwarding target (0 = none)
+    pub next_table: usize,
+}
+
+#[derive(Debug)]
+pub struct Dump<'g, K, V> {
+    pub table: Option<TableDump<'g, K, V>>,
+    /// `HashMap::next_table`, if a resize is in progress
+    pub next: Option<TableDump<'g, K, V>>,
+    pub size_ctl: isize,
+    pub transfer_index: isize,
+    pub count: isize,
+}
